@@ -23,7 +23,7 @@ def split(c):
 
 def describe(c):
     owner, steals, sched = split(c)
-    return "owner: %s; thieves: %s steal attempt(s); schedule=%s" % (",".join("spawn(%d)" % a if o == 1 else "get" for o, a in owner), steals, "".join(map(str, sched[:120])))
+    return "owner: %s; thieves: %s steal attempt(s); schedule=%s" % (",".join("spawn(%d)" % a if o == 1 else ("get" if a == 0 else "get[isolation %d]" % a) for o, a in owner), steals, "".join(map(str, sched[:120])))
 
 
 def oracle(c, toks):
@@ -35,7 +35,7 @@ def oracle(c, toks):
     k = toks.index("-7")
     ev = [int(x) for x in toks[:k]]
     ev = [tuple(ev[i:i + 7]) for i in range(0, len(ev), 7)]
-    head, tail, lock, fin = [int(x) for x in toks[k + 1:k + 5]]
+    head, tail, lock, fin, live = [int(x) for x in toks[k + 1:k + 6]]
     given = [e[4] for e in ev if e[2] in (102, 103) and e[4] != 0]
     spawned = [a for o, a in owner if o == 1]
     dup = sorted(set(x for x in given if given.count(x) > 1))
@@ -45,8 +45,8 @@ def oracle(c, toks):
     bad = [x for x in given if x not in spawned]
     if bad:
         return ("deque-unknown-task", "%s: %d was handed out but never spawned" % (describe(c), bad[0]))
-    if fin and len(given) + (tail - head) != len(spawned):
-        return ("deque-task-lost", "%s: %d spawned, %d handed out, %d left in the deque (head %d, tail %d)" % (describe(c), len(spawned), len(given), tail - head, head, tail))
+    if fin and len(given) + live != len(spawned):
+        return ("deque-task-lost", "%s: %d spawned, %d handed out, %d left in the deque (head %d, tail %d)" % (describe(c), len(spawned), len(given), live, head, tail))
     return None
 
 
@@ -58,11 +58,12 @@ def gen(ctx, n):
         owner = []
         t = 1
         live = 0
+        iso_case = rng.random() < 0.4          # tasks carry isolation tags 1/2, the owner waits inside an isolated region
         for _ in range(rng.randint(2, 8)):
             if rng.random() < 0.55 or live == 0:
-                owner += [1, t]; t += 1; live += 1
+                owner += [1, (rng.choice([1, 2]) * 100 + t) if iso_case else t]; t += 1; live += 1
             else:
-                owner += [2, 0]; live = max(0, live - 1)
+                owner += [2, rng.choice([0, 1, 1, 2]) if iso_case else 0]; live = max(0, live - 1)
         owner += [2, 0] * rng.randint(0, 2)
         c = [1 + nth, len(owner) // 2] + owner + [rng.randint(1, 3) for _ in range(nth)] + [-1]
         sched = []
@@ -83,16 +84,18 @@ def run(ctx):
     ctx.rules.append("deque-gate: the real arena_slot (spawn / get_task / steal_task) runs under the gate with an owner script of 2-10 spawn/get operations and 1-2 thieves with 1-3 steal "
                      "attempts each, seeded bursty schedules; EVERY atomic access to head / tail / task_pool (kind, memory order, values, CAS outcome) and every result is compared with DequeModel "
                      "driven by the same schedule; oracle: no task handed out twice, nothing lost")
-    diff_tie(ctx, "deque-gate", exe, ["gate"], "deque", gen(ctx, ctx.scale(1500, 40000)), oracle=oracle, describe=describe,
+    diff_tie(ctx, "deque-gate", exe, ["gate"], "deque", gen(ctx, ctx.scale(1500, 10000)), oracle=oracle, describe=describe,
              bucket=lambda c: "deque threads=%d" % c[0], timeout=900)
     sexe, err = ctx.build_driver("drv_sched", libs=[lib])
     if err:
         return ctx.broken("drv_sched build", err)
-    names = ["task_group tree", "arena enqueue + execute", "affinity_partitioner x3 (mailboxes)", "isolate", "cancelled group", "nested groups from 4 external threads", "task_handle / defer"]
+    names = ["task_group tree", "arena enqueue + execute", "affinity_partitioner x3 (mailboxes)", "isolate", "cancelled group", "nested groups from 4 external threads", "task_handle / defer", "nested isolated regions with an unwaited inner group"]
     bad = 0
     runs = []
-    for r in range(ctx.scale(14, 210)):
-        runs.append([[1, 2, 4, 16, 32][r % 5], ctx.seed * 100 + r, [40, 200, 1000][(r // 7) % 3], r % 7])
+    for r in range(ctx.scale(16, 240)):
+        runs.append([[1, 2, 4, 16, 32][r % 5], ctx.seed * 100 + r, [40, 200, 1000][(r // 8) % 3], r % 8])
+    for r in range(ctx.scale(2, 12)):
+        runs.append([[4, 8][r % 2], ctx.seed * 100 + 900 + r, 800, 7])
     ctx.rules.append("sched-mt (oracle only): the real scheduler with 1-32 threads: task_group trees, arena enqueue/execute, affinity replay, isolation, cancellation, nested groups from external threads, "
                      "task_handle: every unit ran exactly once (cancelled: at most once), waits returned only after all transitive work")
     for args in runs:
